@@ -315,7 +315,8 @@ PROPS = {
         "v_units": ["decoders.py", "compress.py"],
         "v_units2": ["capacity.py"],      # separate overlay (CommitKey is transparent there, external in decoders.py)
         "r": [("kzg", lambda n: "from_raw_var_bytes" in n), ("verifier", lambda n: n == "verifier.new"), ("compress", None),
-              ("serial", lambda n: "try_from_bytes" in n or "from_slice" in n or "from_bytes" in n)],
+              ("serial", lambda n: "try_from_bytes" in n or "from_slice" in n or "from_bytes" in n),
+              ("serial_kzg", lambda n: "from_" in n or "try_new" in n)],
         "claim": "totality of the length-field / section parsing for ALL byte strings of ANY length (no bound): Verifier::try_from_bytes and "
                  "Prover::try_from_bytes never index out of bounds and never overflow (48-byte header, checked sums, required_len guard before "
                  "every slice); PackedCircuitReader::{take, unpack_array_len} and packed_size_limit likewise; "
@@ -331,11 +332,11 @@ PROPS = {
         "design_ref": "DESIGN.md §4 C17",
         "assumptions": A_VERUS + A_RING,
         "trusted": T_VERUS + T_RING,
-        "not_covered": ["ProverKey::from_slice, CommitKey::from_slice, Proof::from_bytes, PublicParameters::from_slice, CompressedCircuit::from_bytes bodies"],
+        "not_covered": ["the bodies of ProverKey::from_slice, CommitKey::from_slice, Proof::from_bytes, PublicParameters::from_slice, CompressedCircuit::from_bytes are decided by ring/trace units (exits, typed reads, allocation order), not by Verus; the unchecked raw formats (from_slice_unchecked) are not under contract"],
     },
     "C20": {
         "v_units": ["capacity.py", "kernels.py"],
-        "r": [("kzg", None)],
+        "r": [("kzg", None), ("serial_kzg", lambda n: "try_new" in n or "OpeningKey" in n)],
         "claim": "(0) CommitKey::commit: the degree rule is the only exit and is checked on every polynomial before anything is computed; the result is the msm of the key's powers with the coefficient vector. (a) aggregated opening: compute_aggregate_witness(p_0..p_k, z, v) == ruffini(sum_j v^j p_j, z) with POSITIONAL powers "
                  "(instances of 0,1,3,4 polynomials; pointwise loop abstracted to a polynomial operation); (b) batched check: "
                  "batch_challenge absorbs domain separator, length and every (point, commitment, evaluation, witness) in order before the "
@@ -353,8 +354,8 @@ PROPS = {
         "not_covered": ["setup, commit linearity, ruffini, pairing algebra"],
     },
     "C16": {
-        "r": [("serial", None)],
-        "claim": "framing and field order of every encoder/decoder pair, on the real functions: (a) fixed-size formats (Proof, ProofEvaluations, "
+        "r": [("serial", None), ("serial_kzg", None)],
+        "claim": "framing and field order of every encoder/decoder pair, on the real functions: (0) KZG / FFT layer: OpeningKey and EvaluationDomain fixed formats, Polynomial::from_slice / CommitKey::from_slice (every chunk through the canonical decoder), CommitKey / PublicParameters encoders and PublicParameters::from_slice (framing lemma), OpeningKey::try_new validity rules; (a) fixed-size formats (Proof, ProofEvaluations, "
                  "arithmetic::VerifierKey, VerifierKey): to_bytes writes the fields in FORMAT order, from_bytes reads the same number of items of "
                  "the same types in the same order and stores read k in the field write k came from (LEMMA round_trip_positions); "
                  "(b) Verifier / Prover containers: to_bytes writes a 48-byte header of six u64 (the four section lengths, size, constraints) "
@@ -378,7 +379,7 @@ PROPS = {
                                  "section sizes in LEMMA pk_framing: |Polynomial::to_var_bytes(p)| = 32*len(p) for normalised p; all 17 Evaluations of a "
                                  "ProverKey have the same length (8n domain)"],
         "trusted": T_RING,
-        "not_covered": ["leaf codecs (scalars, points), Polynomial/Evaluations/CommitKey/OpeningKey/PublicParameters byte bodies",
+        "not_covered": ["leaf codecs (scalars, points), the raw (unchecked) commit-key / parameter formats, Polynomial::to_var_bytes",
                         "behavioural equality of decoded prover/verifier beyond the parts handed to the constructors"],
     },
     "C19": {
@@ -406,7 +407,7 @@ PROPS = {
         "assumptions": A_RING + A_VERUS + ["field inverse as an uninterpreted symbol inv(p); results stated in product form (inv(T) * cofactor), "
                                           "which equals 1/v_i because inv(T) * T == 1 in a field"],
         "trusted": T_RING + T_VERUS,
-        "not_covered": ["rayon schedules, n >= 2^12 stage selection, polynomial multiplication, Lagrange/barycentric evaluations, sizes beyond the instances"],
+        "not_covered": ["rayon schedules, n >= 2^12 stage selection, barycentric evaluation, sizes beyond the instances (polynomial product: domain size for all lengths, values per instance)"],
     },
     "C15": {
         "v_units": ["capacity.py", "compress.py"],
